@@ -193,6 +193,9 @@ func compName(key string) string {
 	if strings.HasPrefix(key, "Int:") {
 		return "H_Int_" + sanitize(key[4:])
 	}
+	if strings.HasPrefix(key, "Ghost:") {
+		return "G_" + sanitize(key[6:strings.LastIndex(key, ":")])
+	}
 	switch key {
 	case "Int", "Bool", "Str", "Addr", "Slice", "Iface", "Real":
 		return "H_" + key
@@ -204,10 +207,16 @@ func compValueSort(key string) string {
 	if strings.HasPrefix(key, "Int:") {
 		return "Int"
 	}
+	if strings.HasPrefix(key, "Ghost:") {
+		return key[strings.LastIndex(key, ":")+1:]
+	}
 	return key
 }
 
 func (w *World) compKey(t types.Type) string {
+	if n, ok := t.(*types.Named); ok && strings.HasPrefix(n.Obj().Name(), "ghost$") {
+		return "Ghost:" + n.Obj().Name()[6:] + ":" + w.sortOf(t)
+	}
 	if b, ok := t.Underlying().(*types.Basic); ok && b.Info()&types.IsInteger != 0 {
 		// by kind, so that byte/uint8 and rune/int32 share a component
 		return "Int:" + types.Typ[b.Kind()].Name()
